@@ -28,9 +28,9 @@ def run(c):
 
     def code():
         rk = c.build("record_kernels", ["record_kernels.cpp"])
-        runs = [("small", 1), ("random", 1), ("random", 4), ("random", 17), ("big", 17), ("big", 4), ("obs", 1)]
+        runs = [("small", 1), ("random", 1), ("random", 4), ("random", 17), ("big", 17), ("big", 4), ("obs", 1), ("obs", 4)]
         if th:
-            runs += [("random", 16), ("random", 24), ("big", 1), ("obs", 4), ("small", 17)]
+            runs += [("random", 16), ("random", 24), ("big", 1), ("obs", 8), ("small", 17)]
         for mode, nt in runs:
             t = c.record(rk, [mode], env={"OMP_NUM_THREADS": nt}, out=c.path("k-%s-%d.ndjson" % (mode, nt)))
             res = c.tlc_trace("C08Trace", t, label="%s@%dthreads" % (mode, nt), chunk=12000 if mode == "small" else 400)
